@@ -1873,11 +1873,25 @@ where
         }
     }
 
+    /// A MathML `annotation-xml` element whose `encoding` makes it an HTML integration point.
+    fn current_node_is_annotation_xml_integration_point(&self) -> bool {
+        let current = self.current_node();
+        let is_annotation_xml = matches!(
+            self.sink.elem_name(&current).expanded(),
+            expanded_name!(mathml "annotation-xml")
+        );
+        is_annotation_xml
+            && self
+                .sink
+                .is_mathml_annotation_xml_integration_point(&current)
+    }
+
     fn unexpected_start_tag_in_foreign_content(&self, tag: Tag) -> ProcessResult<Handle> {
         self.unexpected(&tag);
         while !self.current_node_in(|n| {
             *n.ns == ns!(html) || mathml_text_integration_point(n) || svg_html_integration_point(n)
-        }) {
+        }) && !self.current_node_is_annotation_xml_integration_point()
+        {
             self.pop();
         }
         self.step(self.mode.get(), Token::Tag(tag))
